@@ -332,6 +332,25 @@ def extract_lambda_from_func(func: FunctionType):
                        if sum(isinstance(m, ast.Lambda)
                               for m in ast.walk(n.body)) == nested)
 
+    if len(lambdas) > 1:
+        # A lambda in a parameter default also starts on the same line.
+        # Find func by its parameter names.
+        code = func.__code__
+        params = code.co_varnames[:code.co_argcount + code.co_kwonlyargcount
+                                  + bool(code.co_flags & 0x04)  # CO_VARARGS
+                                  + bool(code.co_flags & 0x08)]  # CO_VARKEYWORDS
+
+        def get_params(args):
+            names = [a.arg for a in
+                     args.posonlyargs + args.args + args.kwonlyargs]
+            if args.vararg:
+                names.append(args.vararg.arg)
+            if args.kwarg:
+                names.append(args.kwarg.arg)
+            return tuple(names)
+
+        lambdas = list(n for n in lambdas if get_params(n.args) == params)
+
     if len(lambdas) == 1:
         node = lambdas[0]
         return src[node.first_token.startpos:node.last_token.endpos]
